@@ -6,6 +6,7 @@ import (
 	"time"
 
 	sdk "github.com/cosmos/cosmos-sdk/types"
+	banktypes "github.com/cosmos/cosmos-sdk/x/bank/types"
 
 	storagetypes "github.com/jackalLabs/canine-chain/v4/x/storage/types"
 
@@ -46,6 +47,14 @@ func (C15) Config() world.Config {
 }
 func (C15) Stores() []string { return []string{"storage", "bank"} }
 func (C15) Init(env world.Env) mc.Model {
+	// a 32-byte account (the length of contract and interchain accounts) whose address string begins with A's complete
+	// address string; it is funded here and acts through unsigned (contract-dispatched) messages
+	w := env.W()
+	long, err := sdk.AccAddressFromBech32(c18LongAddr(w.A("A").Bech))
+	if err != nil {
+		panic(err)
+	}
+	mustOK(env.Deliver(banktypes.NewMsgSend(w.A("C").Addr, long, sdk.NewCoins(sdk.NewInt64Coin("ujkl", 5*c15Price)))), "fund the long account")
 	return c15Model{Price: c15Price, Rec: map[string]int64{}}
 }
 
@@ -61,6 +70,7 @@ func (C15) Events(env world.Env, m mc.Model) []string {
 	}
 	// account B also signs with the (valid) all-capitals spelling of its address
 	evs = append(evs, "InitUpper:B", "ShutdownUpper:B")
+	evs = append(evs, "InitLong:A", "ShutdownLong:A") // the 32-byte account whose address string extends A's
 	evs = append(evs, "Price:1", "Price:2", "Price:half")
 	if m.(c15Model).Blocks < 1 {
 		evs = append(evs, "NextBlock")
@@ -120,22 +130,35 @@ func (C15) Apply(env world.Env, mm mc.Model, ev string) mc.Step {
 		if env.Deliver(msg).OK() {
 			st.Outcome = "ok"
 		}
-	case "Init", "InitUpper":
+	case "Init", "InitUpper", "InitLong":
 		who := w.A(p[1])
 		creator := who.Bech
+		payer := who.Bech
 		if p[0] == "InitUpper" {
 			creator = strings.ToUpper(creator)
 		}
+		if p[0] == "InitLong" {
+			creator = c18LongAddr(who.Bech)
+			payer = creator
+		}
 		msg := storagetypes.NewMsgInitProvider(creator, "https://"+p[1]+".example.com", 1_000_000, "kb")
-		res := env.Deliver(msg)
+		var res world.TxResult
+		if p[0] == "InitLong" {
+			res = env.DeliverUnsigned(msg)
+		} else {
+			res = env.Deliver(msg)
+		}
 		after := w.Balances(env.Ctx())
 		d := world.BalDiff(before, after)
 		id := p[1]
 		if p[0] == "InitUpper" {
 			id += "^" // records are keyed by the spelling used: a separate registration of the same account
 		}
+		if p[0] == "InitLong" {
+			id += "~" // another account altogether
+		}
 		_, registered := m.Rec[id]
-		canPay := before[who.Bech].AmountOf("ujkl").GTE(sdk.NewInt(m.Price))
+		canPay := before[payer].AmountOf("ujkl").GTE(sdk.NewInt(m.Price))
 		expectOK := !registered && canPay
 		st.Exercised = append(st.Exercised, "init")
 		if res.OK() != expectOK {
@@ -145,7 +168,7 @@ func (C15) Apply(env world.Env, mm mc.Model, ev string) mc.Step {
 		if res.OK() {
 			st.Outcome = "ok"
 			m.Rec[id] = m.Price
-			if !deltaOf(d, who.Bech, "ujkl").Equal(sdk.NewInt(-m.Price)) || !deltaOf(d, escrow, "ujkl").Equal(sdk.NewInt(m.Price)) || len(d) != 2 {
+			if !deltaOf(d, payer, "ujkl").Equal(sdk.NewInt(-m.Price)) || !deltaOf(d, escrow, "ujkl").Equal(sdk.NewInt(m.Price)) || len(d) != 2 {
 				vs = append(vs, viol("init-locks-current-price", "wrong-transfer", "price %d, balance changes %s", m.Price, diffString(w, d, map[string]string{escrow: "escrow"})))
 			}
 			c, found := k.GetCollateral(env.Ctx(), creator)
@@ -158,18 +181,29 @@ func (C15) Apply(env world.Env, mm mc.Model, ev string) mc.Step {
 		} else if len(d) != 0 {
 			vs = append(vs, viol("failed-init-moves-nothing", "moved", "balance changes %s", diffString(w, d, nil)))
 		}
-	case "Shutdown", "ShutdownUpper":
+	case "Shutdown", "ShutdownUpper", "ShutdownLong":
 		who := w.A(p[1])
 		creator := who.Bech
+		payee := who.Bech
 		if p[0] == "ShutdownUpper" {
 			creator = strings.ToUpper(creator)
 		}
-		res := env.Deliver(storagetypes.NewMsgShutdownProvider(creator))
+		var res world.TxResult
+		if p[0] == "ShutdownLong" {
+			creator = c18LongAddr(who.Bech)
+			payee = creator
+			res = env.DeliverUnsigned(storagetypes.NewMsgShutdownProvider(creator))
+		} else {
+			res = env.Deliver(storagetypes.NewMsgShutdownProvider(creator))
+		}
 		after := w.Balances(env.Ctx())
 		d := world.BalDiff(before, after)
 		id := p[1]
 		if p[0] == "ShutdownUpper" {
 			id += "^"
+		}
+		if p[0] == "ShutdownLong" {
+			id += "~"
 		}
 		amt, registered := m.Rec[id]
 		st.Exercised = append(st.Exercised, "shutdown")
@@ -182,7 +216,7 @@ func (C15) Apply(env world.Env, mm mc.Model, ev string) mc.Step {
 		if res.OK() {
 			st.Outcome = "ok"
 			delete(m.Rec, id)
-			if !deltaOf(d, who.Bech, "ujkl").Equal(sdk.NewInt(amt)) || !deltaOf(d, escrow, "ujkl").Equal(sdk.NewInt(-amt)) || len(d) != 2 {
+			if !deltaOf(d, payee, "ujkl").Equal(sdk.NewInt(amt)) || !deltaOf(d, escrow, "ujkl").Equal(sdk.NewInt(-amt)) || len(d) != 2 {
 				vs = append(vs, viol("shutdown-returns-recorded", "wrong-transfer", "recorded %d (current price %d), balance changes %s", amt, m.Price, diffString(w, d, map[string]string{escrow: "escrow"})))
 			}
 			if _, f := k.GetCollateral(env.Ctx(), creator); f {
